@@ -17,7 +17,7 @@
 (* the site sequences the replayer executes are enumerated by TLC from one *)
 (* definition; the deciding power for this property is in the replay.      *)
 (***************************************************************************)
-EXTENDS Naturals, Sequences, FiniteSets, TLC, Json
+EXTENDS Integers, Sequences, FiniteSets, TLC, Json
 
 CONSTANTS MaxSeq
 
@@ -26,29 +26,33 @@ Entries == {"Trace","Tracef","Debug","Debugf","Info","Infof","Warn","Warnf","Err
 Shapes  == {"plain","closure","deferred","goroutine","methodvalue","generic","inlinable"}
 Modes   == {"default","fast"}
 
-DefaultStack == <<"record", "entry", "site", "outer1", "outer2", "outer3">>
-FastStack    == <<"Callers", "FastCaller", "record", "entry", "site", "outer1", "outer2", "outer3">>
-
-\* 0-based frame numbers asked of the runtime
+\* frames are numbered by their distance from the logging entry point:
+\*   Callers = -3, FastCaller = -2, record = -1, entry = 0, site = 1, the site's caller = 2, ...
+MaxSkip == 10
+RecordFrame  == 0 - 1
+CallersFrame == 0 - 3
+\* frame reached by runtime.Caller(n) evaluated in `record`, and by runtime.Callers(m) evaluated in FastCaller
+ByCaller(n)  == RecordFrame + n
+ByCallers(m) == CallersFrame + m
 DefaultArg(skip) == skip + 1          \* runtime.Caller(skip+1) inside record
 FastArg(skip)    == (skip + 1) + 2    \* FastCaller(skip+1) -> runtime.Callers(skip+1+2)
-Expected(skip) == IF skip = 1 THEN "site" ELSE IF skip = 2 THEN "outer1" ELSE "outer2"
+Expected(skip)   == skip              \* skip = 1 is the statement that called the logging function
 
 SkipOf(entry, recSkip) == IF entry = "Record" THEN recSkip ELSE 1
 
 Located(mode, enable, skip) ==
-  IF ~enable THEN "empty"
-  ELSE IF mode = "default" THEN DefaultStack[DefaultArg(skip) + 1]
-  ELSE FastStack[FastArg(skip) + 1]
+  IF ~enable THEN 0                   \* 0 = empty location
+  ELSE IF mode = "default" THEN ByCaller(DefaultArg(skip))
+  ELSE ByCallers(FastArg(skip))
 
-SkipArithmetic == \A m \in Modes, k \in 1..3 : Located(m, TRUE, k) = Expected(k)
-ModesAgree     == \A k \in 1..3 : Located("default", TRUE, k) = Located("fast", TRUE, k)
+SkipArithmetic == \A m \in Modes, k \in 1..MaxSkip : Located(m, TRUE, k) = Expected(k)
+ModesAgree     == \A k \in 1..MaxSkip : Located("default", TRUE, k) = Located("fast", TRUE, k)
 
 (************ site sequences: repeated calls exercise the cache ************)
 VARIABLES mode, enable, calls, cache, seen
 vars == <<mode, enable, calls, cache, seen>>
 
-Sites == [entry : Entries, shape : Shapes, skip : 1..3]
+Sites == [entry : Entries, shape : Shapes, skip : 1..MaxSkip]
 ValidSite(s) == (s.entry = "Record" \/ s.skip = 1) /\ (s.skip = 1 \/ s.shape = "plain")
 
 Others == { [entry |-> "Info", shape |-> "plain", skip |-> 1],
@@ -73,7 +77,7 @@ Next == \E s \in Sites : Call(s)
 Spec == Init /\ [][Next]_vars
 
 HitEqualsMiss == \A i, j \in DOMAIN calls : calls[i] = calls[j] => seen[i].loc = seen[j].loc
-DisabledIsEmpty == ~enable => \A i \in DOMAIN seen : seen[i].loc = "empty"
+DisabledIsEmpty == ~enable => \A i \in DOMAIN seen : seen[i].loc = 0
 EnabledIsExpected == enable => \A i \in DOMAIN seen : seen[i].loc = Expected(calls[i].skip)
 
 Emit == (Len(calls) = MaxSeq) =>
